@@ -191,8 +191,9 @@ type Instance struct {
 type modelResult struct {
 	violation string // "" or description (C14)
 	class     string
-	abstained bool   // the model met something the property does not speak about and stopped predicting
-	sawCycle  bool
+	abstained bool // the model met something the property does not speak about and stopped predicting
+	sawCycle  bool   // an instance with the same path AND the same bytes was open: a true, endless cycle
+	pathCycle bool   // an instance with the same path (any bytes) was open: the implementation may call that recursion
 	mustFail  bool   // the build must not have produced a catalog
 	failFile  string // if non-empty: the error must be located in this file ...
 	failLine  int    // ... at this line (the INCLUDE)
@@ -310,6 +311,11 @@ func (m *includeModel) walk(inst *Instance, stack []*Instance) bool {
 		k := countIn(stack, target, b.data)
 		if k >= 1 {
 			m.res.sawCycle = true
+		}
+		for _, st := range stack {
+			if cleanPath(st.Path) == cleanPath(target) {
+				m.res.pathCycle = true
+			}
 		}
 		child := &Instance{Path: b.Path, Data: b.data, Parent: inst, AtLine: il.line, ReadSeq: b.Seq}
 		m.res.instances = append(m.res.instances, child)
